@@ -76,8 +76,15 @@ func (im *impl) pickTarget(h *vh.H) (*typeSet, protoreflect.MessageDescriptor) {
 			continue
 		case x < 7:
 			ts, err = getGenSet(0)
-			if err == nil && h.Rng.IntN(3) != 0 {
-				return ts, ts.byRoot["g0.v1.All"]
+			if err == nil {
+				switch h.Rng.IntN(6) {
+				case 0, 1, 2:
+					return ts, ts.byRoot["g0.v1.All"]
+				case 3:
+					return ts, ts.byRoot["g0.v1.Chain"] // flattened objects seven deep
+				case 4:
+					return ts, ts.byRoot["g0.v1.Flat"] // Flat -> Flat2 -> Flat3
+				}
 			}
 		case x < 9:
 			ts, err = getGenSet(1)
@@ -160,7 +167,13 @@ func (im *impl) genEnc(h *vh.H, i int) string {
 	if hasPbAny(m) && h.Rng.IntN(4) != 0 {
 		mode = "p"
 	}
-	return "enc " + mode + " " + im.envFor(ts, md) + " " + j5Name(md) + " " + dumpMsgIn(ts, m)
+	line := "enc " + mode + " " + im.envFor(ts, md) + " " + j5Name(md) + " " + dumpMsgIn(ts, m)
+	if strings.Contains(line, "(any j5 ") && h.Rng.IntN(3) == 0 {
+		// the harness stores the unpopulated bytes fields of every j5 Any as empty non-nil slices
+		h.Count("gen.enc.emptybytes")
+		line += " (meta emptybytes)"
+	}
+	return line
 }
 
 // ---- codec.dec
